@@ -601,7 +601,10 @@ func (c *ctx) callTerm(call *ast.CallExpr, g *fn) string {
 	if g.variadic && !call.Ellipsis.IsValid() { // f(a, b, c): the variadic parameter receives a fresh slice of the further arguments
 		var es []string
 		for _, a := range call.Args[nd-1:] {
-			es = append(es, c.value(a, false))
+			// (an object passed here is only read by the callee: it cannot assign to the elements of its variadic
+			// parameter, modify a struct that is not its receiver, store an element anywhere, or call a modifying
+			// method on the range variable that holds one — each of these is refused)
+			es = append(es, c.expr(a))
 		}
 		parts = append(parts, "(#["+strings.Join(es, ", ")+"] : "+c.t.leanType(g.params[nd-1].Type(), call)+")")
 	}
@@ -964,6 +967,13 @@ func (c *ctx) sameExpr(a, b ast.Expr) bool {
 	return false
 }
 
+// sameVar: e and f are the same variable.
+func (c *ctx) sameVar(e, f ast.Expr) bool {
+	x, okx := ast.Unparen(e).(*ast.Ident)
+	y, oky := ast.Unparen(f).(*ast.Ident)
+	return okx && oky && c.t.varOf(x) != nil && c.t.varOf(x) == c.t.varOf(y)
+}
+
 // isPlusOne: e is `v + 1` for the variable v that f is.
 func (c *ctx) isPlusOne(e, f ast.Expr) bool {
 	b, ok := ast.Unparen(e).(*ast.BinaryExpr)
@@ -1034,6 +1044,34 @@ func (c *ctx) assign(s *ast.AssignStmt) {
 				t2 := c.hoist("Go.slice %s (%s + 1) (%s.size : Int)", paren(x), i, paren(x))
 				store("(" + t1 + " ++ " + t2 + ")")
 				return
+			}
+		}
+	}
+	if len(s.Rhs) == 1 && len(s.Lhs) == 1 && !define {
+		// x = append(x[:i], append([]T{v…}, x[i:]...)...): v… are inserted before position i.  The inner append builds a
+		// FRESH slice [v…] ++ x[i:len] before the outer one writes anything, so nothing overlaps; whatever the capacity,
+		// Go panics unless 0 <= i <= len(x) (x[i:] is checked against the LENGTH), and otherwise the result is
+		// x[:i] ++ [v…] ++ x[i:]; no second reference to x's array exists in the subset.
+		if call, ok := ast.Unparen(s.Rhs[0]).(*ast.CallExpr); ok && c.builtin(call.Fun) == "append" && call.Ellipsis.IsValid() && len(call.Args) == 2 {
+			a0, ok0 := ast.Unparen(call.Args[0]).(*ast.SliceExpr)
+			in, ok1 := ast.Unparen(call.Args[1]).(*ast.CallExpr)
+			if ok0 && ok1 && c.builtin(in.Fun) == "append" && in.Ellipsis.IsValid() && len(in.Args) == 2 {
+				lit, okl := ast.Unparen(in.Args[0]).(*ast.CompositeLit)
+				a1, oks := ast.Unparen(in.Args[1]).(*ast.SliceExpr)
+				if okl && oks && !a0.Slice3 && !a1.Slice3 && a0.Low == nil && a0.High != nil && a1.Low != nil && a1.High == nil &&
+					c.sameExpr(s.Lhs[0], a0.X) && c.sameExpr(s.Lhs[0], a1.X) && c.sameVar(a0.High, a1.Low) {
+					if c.t.mentionsMutRec(c.typeOf(s.Lhs[0])) {
+						c.fail(s, "insertion into a slice of pointers to mutable records")
+					}
+					store := c.placeOf(s.Lhs[0], false, true)
+					x := c.expr(s.Lhs[0])
+					i := c.expr(a0.High)
+					t1 := c.hoist("Go.slice %s 0 %s", paren(x), paren(i))
+					mid := c.composite(lit)
+					t2 := c.hoist("Go.slice %s %s (%s.size : Int)", paren(x), paren(i), paren(x))
+					store("(" + t1 + " ++ (" + mid + " ++ " + t2 + "))")
+					return
+				}
 			}
 		}
 	}
@@ -1924,7 +1962,16 @@ func (t *translator) emitFn(g *fn) string {
 			t.fail(g.decl, "unnamed parameter")
 		}
 		if _, isPtr := types.Unalias(p.Type()).(*types.Pointer); isPtr && p != g.recv && !isRand(p.Type()) {
-			t.fail(g.decl, "pointer parameter %s", p.Name())
+			// a *S parameter (a devirtualised `rhs Set[T]`): read-only (place refuses stores through it), and accepted
+			// only where the receiver is not modified either, because the two may be the same object
+			if t.ownStruct(p.Type()) == nil || g.mutRecv {
+				t.fail(g.decl, "pointer parameter %s", p.Name())
+			}
+		}
+		if sl, isSl := types.Unalias(p.Type()).(*types.Slice); isSl && p != g.recv && t.ownStruct(sl.Elem()) != nil {
+			if _, isPtr := types.Unalias(sl.Elem()).(*types.Pointer); isPtr && g.mutRecv {
+				t.fail(g.decl, "parameter %s of pointers to the receiver's type in a method that modifies its receiver (they may be the same object)", p.Name())
+			}
 		}
 		if p != g.recv && t.mentionsMutRec(p.Type()) {
 			t.fail(g.decl, "parameter %s contains pointers to mutable records", p.Name())
